@@ -140,8 +140,8 @@ CLAIMED.update({
 
 CLAIMED.update({
     'C17': ('model_checking',
-            'pairs of exports compared by z3 for all assignments: same formula on dd.cudd vs dd.autoref, recursive vs iterative prefix translator vs an independent reader, and every BDD obtained earlier re-exported after each operation of an enumerated history (declare, add, quantify, substitute, print as formula, reorder, collect, copy, synthesize, repeat, relabel, operator definitions in a copy, attempted re-declaration); str(automaton) lines re-read and compared with the BDD they label',
-            'Histories are enumerated (all sequences of length <= 3 over a 14-operation alphabet, seeded longer ones); the solver quantifies over assignments, not over histories -- stated plainly.',
+            'pairs of exports compared by z3 for all assignments: same formula on dd.cudd vs dd.autoref, recursive vs iterative prefix translator vs an independent reader, and every BDD obtained earlier re-exported after each operation of an enumerated history (declare, add, quantify, substitute, print as formula, reorder, collect, copy, synthesize, repeat, relabel, operator definitions in a copy, attempted re-declaration, node references in formulas); str(automaton) lines re-read and compared with the BDD they label',
+            'Histories are enumerated (all sequences of length <= 3 over a 15-operation alphabet, seeded longer ones); the solver quantifies over assignments, not over histories -- stated plainly.',
             'Trusted: z3, dd node accessors; dd reordering / garbage collection are exercised, not verified. Reuse of a collected node identifier is only met opportunistically.',
             'DESIGN.md §3 C17'),
 })
